@@ -353,6 +353,12 @@ def rules(ck, P):
                 return None
             idx = [part_index(a) for a in tc[0]["a"]]
             okc = idx == [1, 2, 0]
+        # a request with exactly the three parts z/x/y is a tile request: the branch is taken for len >= 3
+        ar = [n for n in ir.walk_nodes(b["body"]) if n.get("k") == "if" and ir.cmp_norm(n["c"]) is not None and ir.cmp_norm(n["c"])[0].endswith(".len()") and
+              tc and ir.contains(n["then"], lambda y: y is tc[0])]
+        cn = ir.cmp_norm(ar[0]["c"]) if ar else None
+        ck.check(cn is not None and cn[1:] in ((">=", "3"), (">", "2"), ("==", "3")), "R-STATUS", b["q"] + "|arity", "a path of three parts (z/x/y[.ext]) is treated as a tile request",
+                 "the tile branch is taken under `%s`: a plain /z/x/y request is not answered as a tile" % (" ".join(cn) if cn else "no length test"), ir.loc(b))
         ck.check(okc, "R-STATUS", b["q"] + "|zxy", "path parts 0/1/2 are z/x/y and TileCoord3::new(x, y, z) receives them", "coordinate assembly does not follow /z/x/y", ir.loc(b))
 
     # ---------------- R-HANDLER-TOTAL
